@@ -159,17 +159,65 @@ class Engine:
         self.forks = forks or {}                # var name -> list of representative values
         self.obl = []
         self.fresh = itertools.count()
+        self.sym_max = {}
+        self.truncations = []
         self.max_unroll = max_unroll
         self.summary_cache = {}
         self.fork_compares = {}                 # var name -> set of constants it was compared with
         self.notes = []
         self.depth = 0
         self.on_expr = None
+        self.handles = set()      # ids of pointer-to-cursor variables (`const uint8_t **pptr`): a callee receiving one moves the cursor
+        self.handle_exprs = []    # predicate list: expression is the address of the cursor (`&trackPtr`)
         self.returns = []      # (return expression value or None, state) of every return reached
+        self.moved_by = []
+        self.overflow_prone = []
+        self.cursor_deref_of = None
 
     # ---------------------------------------------------------------- expression evaluation
-    def sym(self, hint):
-        return Poly.sym('%s#%d' % (hint, next(self.fresh)))
+    def sym(self, hint, t=None):
+        name = '%s#%d' % (hint, next(self.fresh))
+        self.note_max(name, t)
+        return Poly.sym(name)
+
+    def note_max(self, name, t):
+        if t and t.get('u') and t.get('w') and not t.get('p') and not t.get('f'):
+            self.sym_max[name] = (1 << t['w']) - 1
+
+    def poly_max(self, p):
+        """largest value of p when every symbol ranges over its type (None: unbounded or possibly negative)"""
+        if not p.nonneg():
+            return None
+        tot = 0
+        for k, v in p.t.items():
+            term = v
+            for s_ in k:
+                m = self.sym_max.get(s_)
+                if m is None:
+                    return None
+                term *= m
+            tot += term
+        return tot
+
+    def fit(self, p, t):
+        """value of p after conversion to the integer type t: unchanged when it provably fits, otherwise an unknown value of that type
+        (a sum of two 16-bit fields stored in a 16-bit variable is NOT the sum any more)"""
+        if p is None or not t or not t.get('w') or t.get('p') or t.get('f') or t.get('w', 64) >= 64:
+            return p
+        w = t['w']
+        tmax = (1 << w) - 1 if t.get('u') else (1 << (w - 1)) - 1
+        if p.is_const():
+            c = p.cval()
+            if t.get('u'):
+                return p if 0 <= c <= tmax else Poly.const(c % (1 << w))
+            return p
+        if not t.get('u') and w >= 32 and not p.nonneg():
+            return p            # signed int arithmetic: differences stay as they are (overflow is not modelled for signed values)
+        m = self.poly_max(p)
+        if m is not None and m <= tmax:
+            return p
+        self.truncations.append(repr(p))
+        return self.sym('trunc', t if t.get('u') else None)
 
     def ev(self, e, st):
         if e is None:
@@ -205,14 +253,14 @@ class Engine:
                 return None
             return None
         if k and k.endswith('CastExpr') and 'e' in e:
-            return self.ev(e['e'], st)
+            return self.fit(self.ev(e['e'], st), e.get('t'))
         if k == 'ArraySubscriptExpr':
             i = self.ev(e['i'], st)
             key = ('a', show(e['b']), repr(i) if i is not None else '?%d' % next(self.fresh))
             if key in st.env:
                 return st.env[key]
             if e.get('t', {}).get('u'):
-                v = self.sym(show(e['b']))
+                v = self.sym(show(e['b']), e.get('t'))
                 st.env[key] = v
                 return v
             return None
@@ -222,6 +270,7 @@ class Engine:
                 return st.env[key]
             if e.get('t', {}).get('u'):
                 v = Poly.sym(show(e))          # deterministic: the same member reads as the same symbol until it is stored to
+                self.note_max(show(e), e.get('t'))
                 st.env[key] = v
                 return v
             return None
@@ -232,13 +281,13 @@ class Engine:
             if c is False:
                 return self.ev(e['r'], st)
             if e.get('t', {}).get('u') or e.get('ot', {}).get('u'):
-                return self.sym('sel')
+                return self.sym('sel', e.get('t'))
             return None
         if k == 'UnaryExprOrTypeTraitExpr' and 'c' in e:
             return Poly.const(e['c'])
         if 'callee' in e:
             if e.get('ot', {}).get('u') or e.get('t', {}).get('u'):
-                return self.sym(short(e['callee']))
+                return self.sym(short(e['callee']), e.get('t'))
             return None
         return None
 
@@ -312,7 +361,15 @@ class Engine:
 
     def is_cursor(self, e):
         e = strip(e)
-        return e is not None and e.get('k') == 'DeclRefExpr' and e.get('id') == self.cursor_id
+        if e is None:
+            return False
+        if e.get('k') == 'DeclRefExpr' and e.get('id') == self.cursor_id:
+            return True
+        # cursor reached through a pointer-to-pointer parameter: `*pp`
+        if self.cursor_deref_of is not None and e.get('k') == 'UnaryOperator' and e.get('op') == '*':
+            i = strip(e['e'])
+            return i.get('k') == 'DeclRefExpr' and i.get('id') == self.cursor_deref_of
+        return False
 
     def cursor_off(self, e, st):
         """offset K if e is `cursor` / `cursor + K` / `&cursor[K]`, else None"""
@@ -356,6 +413,17 @@ class Engine:
                     if inner.get('k') == 'UnaryOperator' and inner['op'] in ('++', '--') and self.is_cursor(inner['e']):
                         self.record(x.get('ln'), show(x), Poly.const(1), st)
             cal = short(x.get('callee', ''))
+            if x.get('callee') == 'std::copy' and len(x.get('a', [])) >= 2:
+                o1, o2 = self.cursor_off(x['a'][0], st), self.cursor_off(x['a'][1], st)
+                if o1 is not None or o2 is not None:
+                    self.record(x.get('ln'), 'std::copy(%s, %s, ..)' % (show(x['a'][0]), show(x['a'][1])), o2 if o2 is not None else None, st)
+                continue
+            if x.get('ctor') and 'basic_string' in x.get('callee', '') and len(x.get('a', [])) >= 2:
+                src = x['a'][0]
+                if mentions(src, lambda y: self.is_cursor(y)):
+                    n = self.ev(x['a'][1], st)
+                    self.record(x.get('ln'), 'std::string(%s, %s)' % (show(src)[:30], show(x['a'][1])), n, st)
+                continue
             if cal:
                 args = x.get('a', [])
                 if cal in self.MEMFUNCS:
@@ -420,11 +488,15 @@ class Engine:
         if ap:
             tgt, rhs, op = ap
             t = strip(tgt)
+            if self.is_cursor(t) and t.get('k') != 'DeclRefExpr':
+                t = {'k': 'DeclRefExpr', 'id': self.cursor_id, 'n': 'cursor', 't': t.get('t', {})}
             if t.get('k') == 'DeclRefExpr':
                 vid = t.get('id')
                 if vid == self.cursor_id:
                     v = self.ev(rhs, st)
                     if op == '+=' and v is not None:
+                        if self.dialect == 'pair':
+                            self.record(x.get('ln'), show(x), v, st)       # moving the cursor past the end is itself an overrun
                         st.avail = st.avail - v if self.dialect == 'pair' else st.avail
                         if self.dialect == 'pair':
                             st.consumed = st.consumed + v
@@ -439,6 +511,7 @@ class Engine:
                 if vid == self.count_id and self.dialect == 'count':
                     v = self.ev(rhs, st)
                     if op == '-=' and v is not None:
+                        self.record(x.get('ln'), show(x), v, st)           # the unsigned remaining-length counter must not wrap
                         sk = st.env.get(('skew',), Poly.const(0))
                         # paired with the cursor move: bytes consumed = v
                         st.avail = st.avail - v
@@ -455,16 +528,16 @@ class Engine:
                         st.env[key] = None
                         st.env[('fork',)] = (key, name)
                     elif v is not None:
-                        st.env[key] = v
+                        st.env[key] = self.fit(v, t.get('t'))
                     elif t.get('t', {}).get('u'):
-                        st.env[key] = self.sym(name)
+                        st.env[key] = self.sym(name, t.get('t'))
                     else:
                         st.env.pop(key, None)
                 else:
                     cur = st.env.get(key)
                     v = self.ev(rhs, st)
                     if cur is not None and v is not None and op in ('+=', '-=', '*='):
-                        st.env[key] = cur + v if op == '+=' else (cur - v if op == '-=' else cur * v)
+                        st.env[key] = self.fit(cur + v if op == '+=' else (cur - v if op == '-=' else cur * v), t.get('t'))
                     else:
                         st.env.pop(key, None)
             elif t.get('k') == 'ArraySubscriptExpr':
@@ -487,6 +560,8 @@ class Engine:
             return
         if is_incdec(x):
             t = strip(x['e'])
+            if self.is_cursor(t) and t.get('k') != 'DeclRefExpr':
+                t = {'k': 'DeclRefExpr', 'id': self.cursor_id, 'n': 'cursor', 't': t.get('t', {})}
             if t.get('k') == 'DeclRefExpr':
                 vid = t.get('id')
                 d = 1 if x['op'] == '++' else -1
@@ -514,6 +589,22 @@ class Engine:
         self.accesses(e, st)
         for x in self._updates(e):
             self.assign(x, st)
+        # arguments bound to non-const references / passed by address may be changed by the callee
+        for x in calls_in(e):
+            for a, pt in zip(x.get('a', []), x.get('pt', [])):
+                a2 = strip(a)
+                if pt.get('ref') and not pt.get('const') and a2.get('k') == 'DeclRefExpr':
+                    st.env.pop(('v', a2.get('id')), None)
+                if a2.get('k') == 'UnaryOperator' and a2.get('op') == '&' and strip(a2['e']).get('k') == 'DeclRefExpr':
+                    st.env.pop(('v', strip(a2['e']).get('id')), None)
+        # a callee that receives the cursor by address checks and moves it itself (self-guarding helper): budget unknown afterwards
+        for x in calls_in(e):
+            for a in x.get('a', []):
+                a2 = strip(a)
+                if (a2.get('k') == 'DeclRefExpr' and a2.get('id') in self.handles) or \
+                        (a2.get('k') == 'UnaryOperator' and a2.get('op') == '&' and self.is_cursor(a2['e'])):
+                    st.avail = Poly.const(0)
+                    self.moved_by.append((x.get('ln'), short(x.get('callee', '?'))))
         if self.dialect == 'count':
             sk = st.env.get(('skew',))
             if sk is not None and not (sk.is_const() and sk.cval() == 0):
@@ -585,6 +676,9 @@ class Engine:
         off_l = self.cursor_off(l, st)
         off_r = self.cursor_off(r, st)
         if off_l is not None and is_end(rs):      # cursor + K  op  end
+            if not off_l.is_const():
+                self.overflow_prone.append((ls.get('ln'), show(ls), repr(off_l)))
+                return None      # `ptr + V` with a file-derived 64-bit V can wrap: the comparison proves nothing
             if op == '<=':
                 return off_l
             if op == '<':
@@ -596,6 +690,10 @@ class Engine:
             if op == '>':
                 return off_r + 1
             return None
+        if self.is_cursor(ls) and is_end(rs) and op == '<':
+            return Poly.const(1)
+        if self.is_cursor(rs) and is_end(ls) and op == '>':
+            return Poly.const(1)
         # (end - cursor) op K
         def is_diff(e):
             return e.get('k') == 'BinaryOperator' and e['op'] == '-' and is_end(strip(e['l'])) and self.is_cursor(e['r'])
@@ -709,9 +807,9 @@ class Engine:
                         st.env[key] = None
                         st.env[('fork',)] = (key, v['n'])
                     elif val is not None:
-                        st.env[key] = val
+                        st.env[key] = self.fit(val, v['t'])
                     elif v['t'].get('u') and not v['t'].get('p'):
-                        st.env[key] = self.sym(v['n'])
+                        st.env[key] = self.sym(v['n'], v['t'])
                     # pointer alias of the cursor: treat as the cursor itself is not supported -> note
                     if v['t'].get('p') and self.cursor_off(v['init'], st) is not None and v['id'] != self.cursor_id:
                         self.notes.append('alias of cursor: %s (line %s)' % (v['n'], s.get('ln')))
